@@ -277,6 +277,9 @@ func datagramFamilies() {
 	buf := make([]byte, 0, L)
 	var rec func()
 	rec = func() {
+		if vrt.Stop() {
+			return
+		}
 		feed(buf)
 		if len(buf) == L {
 			return
@@ -437,6 +440,9 @@ func httpFamilies() {
 	buf := make([]byte, 0, L)
 	var rec func()
 	rec = func() {
+		if vrt.Stop() {
+			return
+		}
 		httpCase(buf)
 		if len(buf) == L {
 			return
